@@ -109,7 +109,12 @@ def args_src(args):
     return ", ".join(out)
 
 
-def sig_src(sig):
+# quirk universe for the open finding C05/bare-star-dropped: the generated signature lacks the bare '*', so
+# keyword-only parameters can also be filled positionally
+DROP_BARE_STAR = False
+
+
+def sig_src(sig, for_model=False):
     parts = []
     seen_star = False
     for name, kind, default in sig:
@@ -126,7 +131,8 @@ def sig_src(sig):
             seen_star = True
         elif kind == "kwonly":
             if not seen_star:
-                parts.append("*")
+                if not (for_model and DROP_BARE_STAR):
+                    parts.append("*")
                 seen_star = True
             parts.append(name if default is None else "%s=%r" % (name, default))
         elif kind == "kwargs":
@@ -254,6 +260,9 @@ class Caller:
         self.nested = nested
 
 
+TOPLEVEL = {"vars": [], "defs": [], "caller": None, "loops": []}
+
+
 class Model:
     # Mako sets the pending `caller` of a <%call expr="f(g())"> BEFORE the expression is evaluated, so a def called
     # inside the argument list (g) runs with that caller as well (recorded as finding C05/def-in-call-arguments-sees-
@@ -348,7 +357,7 @@ class Model:
         return self.invoke(d, defscope, pos, kw, caller)
 
     def invoke(self, d, defscope, pos, kw, caller):
-        sig = inspect.signature(eval("lambda %s: None" % sig_src(d["sig"]), {"raiser": lambda: "rf", "zctx": self.context.get("zctx")}))
+        sig = inspect.signature(eval("lambda %s: None" % sig_src(d["sig"], for_model=True), {"raiser": lambda: "rf", "zctx": self.context.get("zctx")}))
         if d.get("decorator") == "kdeco":
             kw = dict(kw, injected="INJ")  # what the decorator's wrapper passes on is what the def receives
         ba = sig.bind(*pos, **kw)  # TypeError for a wrong call: as Python
@@ -442,7 +451,10 @@ class Model:
             elif k == "C":
                 _, name, args, how = n
                 pos, kw = self.eval_args(args, scope)
-                if how in ("expr", "self"):
+                if how == "self":
+                    # self.<name> is the template's top-level def, whatever the name means locally
+                    self.write(str(self.call_def(name, pos, kw, TOPLEVEL)))
+                elif how == "expr":
                     self.write(str(self.call_def(name, pos, kw, scope)))
                 elif how == "concat":
                     r = self.call_def(name, pos, kw, scope)
@@ -473,7 +485,7 @@ class Model:
 
                 caller = Caller(body_fn, cdefs)
                 pos, kw = self.eval_args(args, scope, arg_caller=caller if style == "call" else None)
-                self.write(str(self.call_def(name, pos, kw, scope, caller=caller)))
+                self.write(str(self.call_def(name, pos, kw, TOPLEVEL if style == "ns" else scope, caller=caller)))  # <%self:name> = self.name
             elif k == "CB":
                 c = scope["caller"]
                 if c is None:
